@@ -1896,3 +1896,151 @@ func ruleSchemaTreeKey(c *Ctx, r *Report) {
 			"fixSchemaTreePath resolves relative leafref paths against "+strings.Join(append(bad, good...), ", ")+": with choice/case names in the caller's path every `..` climbs a choice or case instead of a data node")
 	}
 }
+
+// ---- R-UNION-MEMBER (C07) ------------------------------------------------------------------------
+
+// ruleUnionMember: the simplified-union representation stores a union member as a named scalar type
+// (UnionInt8 … UnionFloat64, UnionString, UnionBool; table ygot.unionSingletonUnderlyingTypes), an
+// enumeration (int64) or Binary (slice). Validate must accept each of them: validateLeaf's
+// Go-kind arm for the member's kind has to admit a union schema, and the per-type validator the
+// member's schema leads to must test the value's kind, not assert the predeclared type.
+func ruleUnionMember(c *Ctx, r *Report) {
+	r.Rule("R-UNION-MEMBER", "for every Go kind a simplified-union member can have (the kinds of ygot.unionSingletonUnderlyingTypes, int64 enumerations, Binary slices), the arm of validateLeaf's switch on the value's kind admits yang.Yunion, and no scalar validator reachable for a union member (validateDecimal, validateBool, validateString, validateInt, validateBinary) asserts its value to a predeclared type — a named member type such as UnionFloat64 fails such an assertion although its value is valid", 14)
+	// (1) member kinds from the table.
+	kinds := map[string]bool{"reflect.Int64": true, "reflect.Slice": true}
+	if p := c.Pkg("ygot"); p != nil {
+		for _, file := range p.Syntax {
+			ast.Inspect(file, func(n ast.Node) bool {
+				vs, ok := n.(*ast.ValueSpec)
+				if !ok {
+					return true
+				}
+				for i, nm := range vs.Names {
+					if nm.Name != "unionSingletonUnderlyingTypes" || i >= len(vs.Values) {
+						continue
+					}
+					cl, ok := vs.Values[i].(*ast.CompositeLit)
+					if !ok {
+						continue
+					}
+					for _, el := range cl.Elts {
+						kv, ok := el.(*ast.KeyValueExpr)
+						if !ok {
+							continue
+						}
+						// reflect.TypeOf(T(v)): the conversion's type gives the kind.
+						if call, ok := kv.Value.(*ast.CallExpr); ok && len(call.Args) == 1 {
+							if tv, ok := p.TypesInfo.Types[call.Args[0]]; ok && tv.Type != nil {
+								if b, ok := tv.Type.Underlying().(*types.Basic); ok {
+									nm := b.Name()
+									kinds["reflect."+strings.ToUpper(nm[:1])+nm[1:]] = true
+								}
+							}
+						}
+					}
+				}
+				return true
+			})
+		}
+	}
+	if len(kinds) < 8 {
+		r.Und("ygot.unionSingletonUnderlyingTypes", "-", "the table of simplified-union member types was not found: the member kinds cannot be enumerated")
+		return
+	}
+	// (2) validateLeaf's kind switch.
+	if f := c.MustFunc(r, "ytypes", "validateLeaf"); f != nil {
+		info := f.Info()
+		var sw *ast.SwitchStmt
+		ast.Inspect(f.Decl.Body, func(n ast.Node) bool {
+			if s, ok := n.(*ast.SwitchStmt); ok && s.Tag != nil && sw == nil {
+				for _, cl := range s.Body.List {
+					for _, e := range cl.(*ast.CaseClause).List {
+						if strings.HasPrefix(constName(info, e), "reflect.") {
+							sw = s
+						}
+					}
+				}
+			}
+			return true
+		})
+		if sw == nil {
+			r.Und("ytypes.validateLeaf:kind-switch", c.Pos(f.Decl.Pos()), "switch on the value's reflect.Kind not found")
+		} else {
+			covered := map[string]bool{}
+			for _, cl := range sw.Body.List {
+				cc := cl.(*ast.CaseClause)
+				var armKinds []string
+				for _, e := range cc.List {
+					if k := constName(info, e); kinds[k] {
+						armKinds = append(armKinds, k)
+					}
+				}
+				if len(armKinds) == 0 {
+					continue
+				}
+				// the arm rejects (returns an error) under its first if: which schema kinds escape it?
+				admits := false
+				rejects := false
+				for _, st := range cc.Body {
+					is, ok := st.(*ast.IfStmt)
+					if !ok || !terminates(info, is.Body.List) {
+						continue
+					}
+					rejects = true
+					var cs []ast.Expr
+					flattenAnd(is.Cond, &cs)
+					for _, e := range cs {
+						if be, ok := ast.Unparen(e).(*ast.BinaryExpr); ok && be.Op == token.NEQ && strings.HasSuffix(constName(info, be.Y), "Yunion") {
+							admits = true
+						}
+					}
+				}
+				if !rejects {
+					admits = true // the arm accepts every schema kind
+				}
+				for _, k := range armKinds {
+					covered[k] = true
+					r.Check(admits, "ytypes.validateLeaf:kind-arm("+k+"):admits-union", c.Pos(cc.Pos()), "a "+k+" value is let through for a union schema",
+						"validateLeaf rejects every value of kind "+strings.TrimPrefix(k, "reflect.")+" for a union leaf (the arm's type check does not exempt yang.Yunion): a simplified-union member of that kind — e.g. UnionBool for a union with a boolean member — can never validate")
+				}
+			}
+			var missing []string
+			for k := range kinds {
+				if !covered[k] {
+					missing = append(missing, k)
+				}
+			}
+			sort.Strings(missing)
+			for _, k := range missing {
+				r.Bad("ytypes.validateLeaf:kind-arm("+k+")", c.Pos(sw.Pos()), "validateLeaf's kind switch has no arm for "+k+", a kind simplified-union members can have: such values fall to the default error")
+			}
+		}
+	}
+	// (3) scalar validators: no assertion of the value to a predeclared type.
+	for _, name := range []string{"validateDecimal", "validateBool", "validateString", "validateInt", "validateBinary"} {
+		f := c.MustFunc(r, "ytypes", name)
+		if f == nil {
+			continue
+		}
+		info := f.Info()
+		ps := paramObjs(f)
+		bad := ""
+		for _, as := range AssertionsIn(c, f, f.Decl.Body) {
+			if len(ps) < 2 || ObjOf(info, as.X) != ps[1] {
+				continue
+			}
+			if tv, ok := info.Types[as.Node.Type]; ok && tv.Type != nil {
+				if _, isBasic := tv.Type.(*types.Basic); isBasic {
+					bad = as.Type
+				}
+				if sl, isSlice := tv.Type.(*types.Slice); isSlice {
+					if _, eb := sl.Elem().(*types.Basic); eb {
+						bad = as.Type
+					}
+				}
+			}
+		}
+		r.Check(bad == "", "ytypes."+name+":accepts-named-member-types", c.Pos(f.Decl.Pos()), "the value's kind is tested, no assertion to a predeclared type",
+			fmt.Sprintf("%s asserts its value to the predeclared type %s: the named type a simplified union stores for such a member (UnionFloat64, UnionBool, …) fails the assertion, so Validate rejects a valid union value", name, bad))
+	}
+}
